@@ -287,6 +287,32 @@ def gen_reqs(rng, impl, W, nports, nreq, base, span):
     reqs.append(rs)
   return reqs
 
+def gen_reqs_hot(rng, impl, W, nports, nreq, base, span):
+  """tiny window, a small pool of (addr,len) locations that are read again and again, separated by stores/AMOs of
+  other sizes and alignments that overlap them from below / above / inside / covering (any caching, merging or
+  partial-invalidation shortcut inside the memory shows up as a stale byte in a repeated read)"""
+  pool = [(base + rng.randrange(0, span), rng.randrange(0, W)) for _ in range(rng.choice([1, 2, 2, 3]))]
+  p_rd = rng.choice([0.3, 0.4, 0.5]); p_amo = rng.choice([0, 0.05, 0.15])
+  reqs = []
+  for p in range(nports):
+    rs = []
+    for _ in range(nreq[p]):
+      k = rng.random(); o = rng.getrandbits(8)
+      if k < p_rd:
+        a, l = rng.choice(pool) if rng.random() < 0.85 else (base + rng.randrange(0, span), rng.randrange(0, W))
+        rs.append((0, o, a, l, 0))
+      elif k < 1 - p_amo:
+        # a store placed relative to one of the hot locations: starts up to W-1 bytes below it .. at its last byte
+        a0, l0 = rng.choice(pool); n0 = W if l0 == 0 else l0
+        a = max(1, a0 + rng.randrange(-(W - 1), n0))
+        rs.append((1, o, a, rng.randrange(0, W), gen_data(rng, W)))
+      else:
+        a0, l0 = rng.choice(pool); n0 = W if l0 == 0 else l0
+        a = max(1, a0 + rng.randrange(-(W - 1), n0))
+        rs.append((rng.choice(AMO_CODES), o, a, 0, gen_data(rng, W)))
+    reqs.append(rs)
+  return reqs
+
 def gen_timing(rng, impl, nports, latency=None, stall=None):
   dl = lambda hi: [rng.choice([0, 0, 0, 1, 2, rng.randrange(0, hi)]) for _ in range(nports)]
   if latency is None: latency = rng.choice([0, 1, 2, 3, 4, 5]) if impl == 'CL' else rng.choice([0, 1, 2, 3, 4])
@@ -305,6 +331,20 @@ def nontrivial(h):
     if t == 1 or 3 <= t <= 11:
       for k in range(n): seen[a + k] = p
   return False
+
+def _reread_count(h):
+  """how often the service log contains: read (X,n) ... only stores, at least one partially overlapping [X,X+n) ... read (X,n)"""
+  W = h['W']; last = None; hit = False; cnt = 0
+  for p, r in h['log']:
+    t, o, a, l, d = r; n = W if l == 0 else l
+    if t == 0:
+      if last == (a, n) and hit: cnt += 1
+      last, hit = (a, n), False
+    elif t == 1:
+      if last and a < last[0] + last[1] and last[0] < a + n and (a, n) != last: hit = True
+    elif 3 <= t <= 11:
+      last, hit = None, False
+  return cnt
 
 # ----------------------------------------------------------------------------- shrinking + reporting
 def shrink(I, h, budget=80):
@@ -404,7 +444,7 @@ def run(ctx):
   rng = ctx.rng
   quick = ctx.tier == 'quick'
   hists = []
-  t_end = time.time() + (45 if quick else 600)
+  t_end = time.time() + (45 if quick else 420)
 
   for impl in ('CL', 'RTL'):
     hists.append(backpressure_probe(I, impl))
@@ -424,14 +464,21 @@ def run(ctx):
     base = rng.randrange(8, 1 << 14) * 4 + rng.randrange(0, 4)
     span = rng.choice([4, 6, 8, 12, 16]) if W <= 4 else rng.choice([8, 16, 24])
     hi_n = 9 if quick else 16
-    nreq = [rng.randrange(2, hi_n) for _ in range(nports)]
-    reqs = gen_reqs(rng, impl, W, nports, nreq, base, span)
-    lo, hi = base - 16, base + span + W + 16
+    hot = rng.random() < 0.5
+    if hot:
+      span = rng.choice([1, 2, 3, 4, 6])
+      nreq = [rng.randrange(6, 2 * hi_n) for _ in range(nports)]
+      reqs = gen_reqs_hot(rng, impl, W, nports, nreq, base, span)
+    else:
+      nreq = [rng.randrange(2, hi_n) for _ in range(nports)]
+      reqs = gen_reqs(rng, impl, W, nports, nreq, base, span)
+    lo, hi = base - 2 * W - 16, base + span + 2 * W + 16
     init = [(a, rng.getrandbits(8)) for a in range(base - 2, base + span + 2)] if rng.random() < 0.4 else []
     ntim = 2 if nports == 1 else 1          # one-port streams are run under two timings: same content expected
     for k in range(ntim):
       tm = gen_timing(rng, impl, nports, lat if k == 0 else None, st if k == 0 else None)
       hists.append(simulate(I, impl, W, reqs, init, tm, (lo, hi)))
+      hists[-1]['mode'] = 'hot' if hot else 'uniform'
 
   ctx.extra['build_and_sim_s'] = round(time.time() - ctx.t0, 1)
   # ---- Coq decides
@@ -441,6 +488,8 @@ def run(ctx):
     key = (h['impl'], h['W'], h['reqs'], h['init'], h['order'])
     ctx.count(key, nontrivial(h) and not h['exception'],
               cls=f"{h['impl']}:p{len(h['reqs'])}:L{h['timing']['latency']}:s{h['timing']['stall']}")
+  ctx.extra['hot_window_histories'] = sum(1 for h in hists if h.get('mode') == 'hot')
+  ctx.extra['repeated_read_after_overlapping_store'] = sum(_reread_count(h) for h in hists)
   for h in live[:3] + live[-2:]:
     ctx.sample({'impl': h['impl'], 'W': h['W'], 'timing': h['timing'], 'requests': h['reqs'], 'service_order': h['order'],
                 'responses': h['out'], 'cycles': h.get('cycles')})
